@@ -157,10 +157,13 @@ class Maker:
             a[m] = np.nan
         return a
 
-    def struct(self, shape, names=("A", "B")):
+    def struct(self, shape, names=("A", "B"), nan=0.1):
         s = np.empty(shape, dtype=[(n, np.float64) for n in names])
+        holes = nan and self.rng.random() < 0.2  # now and then an image with missing values (NaN) in every element
         for n in names:
             s[n] = self.arr(shape, nan=0)
+            if holes:
+                s[n][self.np_rng.random_sample(shape) < nan] = np.nan
         return s
 
     def calibration(self):
@@ -251,8 +254,8 @@ def build_args(mk: Maker, qual, pnames, fn_sig):
                 vals[name] = npz.pack_calibration({"A": mk.calibration(), "B": mk.calibration()})
             elif name == "mask":
                 vals[name] = rng.choice([None, mk.np_rng.random_sample((7, 8)) > 0.3])
-            elif name == "psf":
-                vals[name] = np.array([0.25, 0.5, 0.25])
+            elif name == "psf":  # kernels of one, two, three and five taps
+                vals[name] = np.array(rng.choice([[1.0], [0.5, 0.5], [0.25, 0.5, 0.25], [0.25, 0.5, 0.25], [0.1, 0.2, 0.4, 0.2, 0.1]]))
             elif name == "w":
                 vals[name] = rng.choice([None, np.array([1.0, 2.0, 1.0, 0.5, 1.0, 1.0, 2.0, 1.0])])
             elif short == "add":
@@ -298,7 +301,8 @@ def build_args(mk: Maker, qual, pnames, fn_sig):
         elif name == "names":
             vals[name] = {"A": "Z"} if "dict" in ann else rng.choice(["A", ["A"], ["B", "A"], ["missing"]])
         elif name in ("calibration",):
-            vals[name] = rng.choice([None, mk.calibration()]) if "dict" not in ann else rng.choice([None, {"A": mk.calibration()}])
+            vals[name] = rng.choice([None, mk.calibration()]) if "dict" not in ann else \
+                rng.choice([None, {}, {"A": mk.calibration()}, {"A": mk.calibration(), "B": mk.calibration()}])  # none / partial / complete
         elif name == "dict":
             vals[name] = {"A": mk.calibration(), "B": mk.calibration()}
         elif name == "config":
